@@ -1095,7 +1095,9 @@ pub fn run_scenario(ctx: &mut Ctx, _spec: &CheckSpec, sc: &Value, run_id: &str) 
                 let mut second: Vec<Value> = Vec::new();
                 if pairs && f["action"]["a"] == "errno" {
                     let at = f["at"].as_u64().unwrap_or(0) as usize;
-                    let later: Vec<&Event> = sub.events.iter().filter(|e| e.client == 0 && e.ord > at && e.action == Action::Exec && e.op.is_some()).collect();
+                    // (inside the same call as the first fault: a later call of the program is judged without faults)
+                    let first_op = sub.events.iter().find(|e| e.client == 0 && e.action != Action::Exec).and_then(|e| e.op);
+                    let later: Vec<&Event> = sub.events.iter().filter(|e| e.client == 0 && e.ord > at && e.action == Action::Exec && e.op.is_some() && e.op == first_op).collect();
                     let mut r = Rng::new(mix(at as u64, f["action"]["e"].as_u64().unwrap_or(0)));
                     for _ in 0..2.min(later.len()) {
                         let ev = later[r.idx(later.len())];
